@@ -15,7 +15,7 @@
 
    [issued o x] is the identifier a registration [o] returned in output [x];
    [known r id] says mpt_type_traits(id) is non-NULL in state [r]. *)
-From MptV Require Import Base.Mem C06.Gen_Types C06.TypesModel C06.TypesSpec C06.TypesFacts
+From MptV Require Import Base.Mem C06.Gen_Types C06.TypesModel C06.TypesFacts
   C06.TypesChunks C06.TypesInv C06.TypesProps C06.TypesHistory.
 
 (* outputs of a history are the outputs of its prefix followed by those of the
